@@ -64,10 +64,11 @@ type ShAllOpt struct {
 // ShTagOrder: the same options written in other orders (the key is always the first element of the tag;
 // omitempty counts wherever it stands among the options).
 type ShTagOrder struct {
-	A *int64  `cbor:"1,omitempty" json:"a,omitempty"`
-	B *string `cbor:"2,omitempty,keyasint" json:"b,omitempty"`
-	C *[]byte `cbor:"3,keyasint,omitempty" json:"c,omitempty"`
-	D *int64  `cbor:"4" json:"d"`
+	Note string  // no tags at all: not part of the map, in either direction
+	A    *int64  `cbor:"1,omitempty" json:"a,omitempty"`
+	B    *string `cbor:"2,omitempty,keyasint" json:"b,omitempty"`
+	C    *[]byte `cbor:"3,keyasint,omitempty" json:"c,omitempty"`
+	D    *int64  `cbor:"4" json:"d"`
 	ShInner2
 }
 
@@ -586,6 +587,42 @@ func runC15(r *Run, rng *Rng, thorough bool) {
 				} else if perr == nil && src.IExtV != nil && !reflect.DeepEqual(src, dst) {
 					r.Fail("roundtrip", "populate reports success but did not reproduce the value held by the interface")
 				}
+			}
+		}
+	}
+	// (6) structs outside the convention are refused with an error, never a panic and never a malformed map: two fields
+	// with one JSON name (CBOR unaffected), a CBOR key that is not an integer
+	{
+		x := int64(1)
+		// (built with reflect.StructOf: a literal with a repeated JSON name does not pass go vet)
+		pI := reflect.TypeOf((*int64)(nil))
+		dupT := reflect.StructOf([]reflect.StructField{
+			{Name: "A", Type: pI, Tag: `cbor:"1,keyasint" json:"a"`},
+			{Name: "B", Type: pI, Tag: `cbor:"2,keyasint" json:"a"`},
+		})
+		mkDup := func() interface{} {
+			v := reflect.New(dupT)
+			v.Elem().Field(0).Set(reflect.ValueOf(&x))
+			v.Elem().Field(1).Set(reflect.ValueOf(&x))
+			return v.Interface()
+		}
+		type badKey struct {
+			A *int64 `cbor:"abc,keyasint" json:"a"`
+		}
+		r.ImplOnly("shape-outside-convention", false, "ser-outside-convention")
+		var err error
+		if p, what := safely(func() { _, err = encoding.SerializeStructToJSON(mkDup()) }); p || err == nil {
+			r.Fail("duplicate-key", fmt.Sprintf("two fields with the same JSON name: panic=%v (%v) err=%v (an error is expected)", p, what, err))
+		}
+		if p, what := safely(func() { _, err = encoding.SerializeStructToCBOR(extEM, mkDup()) }); p || err != nil {
+			r.Fail("serialize-fails", fmt.Sprintf("distinct CBOR keys: panic=%v (%v) err=%v", p, what, err))
+		}
+		for _, f := range []func() error{
+			func() error { _, e := encoding.SerializeStructToCBOR(extEM, &badKey{A: &x}); return e },
+			func() error { return encoding.PopulateStructFromCBOR(extDM, []byte{0xa1, 0x01, 0x02}, &badKey{}) },
+		} {
+			if p, what := safely(func() { err = f() }); p || err == nil {
+				r.Fail("serialize-fails", fmt.Sprintf("non-integer CBOR key in a tag: panic=%v (%v) err=%v (an error is expected)", p, what, err))
 			}
 		}
 	}
